@@ -384,11 +384,12 @@ class Grammar:
             if c in self.alternatives:
                 for k in self.alternatives[c]:
                     add(k)
-            elif is_dataclass(c):
-                for _, k in get_arguments(c):
-                    add_type(k)
             elif c in [bool, int, str, float, list, tuple]:
                 pass
+            elif is_dataclass(c) or (c in self.all_nodes and not is_abstract(c)):
+                # a production: a dataclass or an ordinary class with a type-annotated __init__
+                for _, k in get_arguments(c):
+                    add_type(k)
             else:
                 assert False
 
